@@ -110,3 +110,32 @@ static inline void iora_call_DataCallback(Impl *im, iora_fn f, SessionId sid, io
   if (G_cb_calls < 1000) G_cb_calls++;
   G_cb_sid = sid; G_cb_pos = data.pos; G_cb_n = data.n;
 }
+
+/* ---- ITransport::receiveSyncCancellable: a retry loop around receiveSync with sub-timeouts of at most 100 ms. receiveSync is replaced by its CONTRACT (proved above, h_receive):
+ * ok(k): exactly k = min(len, buffered) bytes were copied to the caller's buffer AND REMOVED from the sync buffer (D1/D2a/D2b), len = k; an error: nothing copied or removed,
+ * len untouched (D2c).  Ghost stream of this call: G_drained = bytes receiveSync has taken out of the buffer on behalf of this call. They are reported to the caller only if the
+ * Ok result is RETURNED. ---- */
+typedef struct { int x; } ITransport;
+typedef struct { bool cancelled; } iora_token;
+int64_t G_clock; unsigned G_attempts; size_t G_drained; bool G_cancel_seen; int G_last_err; uint64_t G_last_ok; bool G_definite_err;
+static inline int64_t iora_now_ms(void) { int64_t d = nondet_i64(); IORA_ASSUME(d >= 0 && d <= ((int64_t)1 << 40) && G_clock >= 0 && G_clock <= ((int64_t)1 << 41)); G_clock += d; return G_clock; }
+/* token.isCancelled(): another thread may cancel at any time; cancellation is sticky */
+static inline bool iora_token_isCancelled(iora_token *t) { if (!t->cancelled && nondet_bool()) t->cancelled = 1; if (t->cancelled) G_cancel_seen = 1; return t->cancelled; }
+static inline iora_result ITransport_receiveSync(ITransport *self, SessionId sid, iora_outbuf *buffer, size_t *len, int64_t subTimeout)
+{
+  (void)self; (void)sid; (void)buffer; (void)subTimeout;
+  IORA_ASSERT(!G_definite_err, "RC3a after a non-timeout error of receiveSync (PeerClosed, BufferOverflow, ...) no further attempt is made");
+  if (G_attempts < 1000000) G_attempts++;
+  int k = nondet_int();
+  if (k == 0) { size_t n = nondet_size_t(); IORA_ASSUME(n <= *len && n <= ((size_t)1 << 40) && G_drained <= ((size_t)1 << 41)); G_drained += n; *len = n; G_last_ok = n; return iora_result_ok(n); }
+  if (k == 1) return iora_result_err(TransportError_Timeout);
+  int c = nondet_int(); IORA_ASSUME(c != TransportError_Timeout); G_last_err = c; G_definite_err = 1; return iora_result_err(c);
+}
+#if !defined(IORA_CANARIES)
+#undef IORA_CANARY_LOOP
+#define IORA_CANARY_LOOP(msg) ((void)0)
+#endif
+#define IORA_LOOP_ITransport_receiveSyncCancellable_1 IORA_LC( \
+  __CPROVER_assigns(G_clock, G_attempts, G_drained, G_cancel_seen, G_last_err, G_last_ok, G_definite_err, token->cancelled, *len) \
+  __CPROVER_loop_invariant(G_drained == 0 && !G_definite_err && (*len) == __CPROVER_loop_entry(*len) && G_clock >= 0) \
+  __CPROVER_loop_invariant((token->cancelled == 0 || token->cancelled == 1) && (G_cancel_seen == 0 || G_cancel_seen == 1) && (!G_cancel_seen || token->cancelled)))
